@@ -6,7 +6,8 @@
  * the sym_value, reg_value, sym_sizeof, sym_offsetof and num_value callbacks.
  * Protocol: lean/Driver/Os.lean (the model twin understands the layout / scan
  * part; `osinit` scripts are evaluated against the Python oracle of
- * tools/props/c08.py). */
+ * tools/props/c08.py).  `reset` (image scripts only) starts a new image on the
+ * same addrxlat_sys_t: the history class "initialised more than once". */
 #include "hcommon.h"
 #include <libkdumpfile/addrxlat.h>
 #include "addrxlat-priv.h"
@@ -239,6 +240,12 @@ int main(void)
 			memset(ovr, 0, HSZ * sizeof *ovr); novr = 0; nbad = 0; nsyms = 0; rcaps = 7;
 			seed = 0; and_[0] = and_[1] = or_[0] = or_[1] = 0; be = 0;
 			addrxlat_sys_decref(sys); sys = addrxlat_sys_new();
+			new_ctx();
+		} else if (!strncmp(line, "reset", 5)) {
+			/* a new dump behind the SAME addrxlat_sys_t: memory, symbols, bad pages and the context (with its
+			 * read cache) are new, the translation system keeps whatever the previous osinit left in it */
+			memset(ovr, 0, HSZ * sizeof *ovr); novr = 0; nbad = 0; nsyms = 0; rcaps = 7;
+			seed = 0; and_[0] = and_[1] = or_[0] = or_[1] = 0; be = 0;
 			new_ctx();
 		} else if (!strncmp(line, "newsys", 6)) {
 			addrxlat_sys_decref(sys); sys = addrxlat_sys_new();
